@@ -290,3 +290,858 @@ def run_c16(tier, seed, replay=None, theorems=None, module=None):
         return rep.finish()
     finally:
         H.cleanup()
+
+
+# ============================================================================================== C18
+
+REPO = H.hbuild.REPO
+NUM_KEYS = ["time_of_trip", "min_waiting_time", "max_travel_time", "max_access_travel_time", "max_egress_travel_time",
+            "max_transfer_travel_time", "max_first_waiting_time"]
+OPT_NUM_KEYS = NUM_KEYS[1:]
+DEFAULTS = {"min_waiting_time": 180, "max_access_travel_time": 1200, "max_egress_travel_time": 1200,
+            "max_transfer_travel_time": 1200, "max_first_waiting_time": 1800}
+INT_MAX = 2147483647
+UPDATE_NAME_KEYS = ("names", "caches", "cache_names", "name", "cache", "cache_name")
+UPDATE_PATH_KEYS = ("path", "custom_path", "custom_cache_path")
+UPDATE_KNOWN = {"data_sources", "persons", "od_trips", "agencies", "services", "nodes", "lines", "paths", "scenarios", "schedules", "all"}
+C18_N = {"quick": 2400, "thorough": 40000}        # random query strings (the systematic catalogue comes on top)
+C18_RULE = ("raw-socket GETs to the real ASan server binary: a systematic catalogue (every documented parameter absent / duplicated / "
+            "malformed / extreme, every endpoint) + seeded random query strings with percent-encoding, upper-case keys and duplicates, on a "
+            "ready server (Euclidean geofilter), on two not-ready servers (empty cache directory, cache without schedules) and /updateCache "
+            "requests with known / unknown / empty / mixed names; defaults and 'non-positive = no limit' by comparing bodies; "
+            "non-trivial = a request carrying at least one defect or non-default feature that got a well-formed response; distinct = distinct URL")
+
+
+def documented_codes():
+    """error-code enums read from /repo/docs/APIv2 (so that an edited documentation is followed): returns
+    (route/summary query_error codes, accessibility query_error codes, data_error codes) or raises"""
+    def enums(path):
+        out, cur = [], None
+        for line in open(path, encoding="utf-8"):
+            m = re.match(r"\s*-\s*'?([A-Z][A-Z_]+)'?,?\s*(#.*)?$", line)
+            if m:
+                if cur is None:
+                    cur = []; out.append(cur)
+                cur.append(m.group(1))
+            elif line.strip() and not line.strip().startswith("#"):
+                cur = None
+        return out
+    common = enums(os.path.join(REPO, "docs/APIv2/commonResponse.yml"))
+    acc = enums(os.path.join(REPO, "docs/APIv2/accessibilityResponse.yml"))
+    q = [e for e in common if "MISSING_PARAM_ORIGIN" in e]
+    de = [e for e in common if "DATA_ERROR" in e]
+    qa = [e for e in acc if "MISSING_PARAM_PLACE" in e]
+    if not q or not de or not qa:
+        raise RuntimeError("could not find the documented error-code enums")
+    return set(q[0]), set(qa[0]), set(de[0])
+
+
+# ---------------------------------------------------------------- what the server sees in a URL
+
+def pct_decode(v):
+    """SimpleWeb::Percent::decode (utility.hpp:88): %XX via strtol(.., 16) when two more characters follow, '+' -> ' '"""
+    b = v.encode("latin-1", "replace"); out = bytearray(); i = 0
+    while i < len(b):
+        c = b[i]
+        if c == 0x25 and i + 2 < len(b):
+            m = re.match(rb"[ \t\n\v\f\r]*[+-]?(?:0[xX])?[0-9a-fA-F]*", b[i + 1:i + 3])
+            try: val = int(m.group(0).strip() or b"0", 16)
+            except ValueError: val = 0
+            out.append(val & 0xFF); i += 3
+        elif c == 0x2B:
+            out.append(0x20); i += 1
+        else:
+            out.append(c); i += 1
+    return out.decode("latin-1")
+
+
+def server_parse_query(qs):
+    """SimpleWeb::QueryString::parse: fields split at '&', name up to the first '=', names NOT decoded, empty names dropped"""
+    out = []
+    for part in qs.split("&"):
+        name, _, val = part.partition("=")
+        if name:
+            out.append((name, pct_decode(val)))
+    return out
+
+
+def stoi_model(v):
+    """std::stoi: ('ok'|'lenient'|'prefix'|'range'|'nonnumeric', value).  ok = plain -?digits; lenient = forms stoi consumes
+    completely although they are not plain integers (leading white space, '+'); prefix = trailing garbage ignored"""
+    m = re.match(r"[ \t\n\v\f\r]*([+-]?\d+)", v)
+    if not m: return "nonnumeric", None
+    n = int(m.group(1))
+    if not -2 ** 31 <= n < 2 ** 31: return "range", None
+    if m.end() < len(v): return "prefix", n
+    if re.fullmatch(r"-?\d+", v): return "ok", n
+    return "lenient", n
+
+
+_FLOAT = re.compile(r"[ \t\n\v\f\r]*[+-]?(?:0[xX](?:[0-9a-fA-F]+\.?[0-9a-fA-F]*|\.[0-9a-fA-F]+)(?:[pP][+-]?\d+)?|(?:\d+\.?\d*|\.\d+)(?:[eE][+-]?\d+)?|"
+                    r"[iI][nN][fF](?:[iI][nN][iI][tT][yY])?|[nN][aA][nN](?:\([0-9A-Za-z_]*\))?)")
+
+
+def coord_model(v):
+    """('ok'|'lenient'|'prefix'|'invalid', (lon, lat) | None) for an origin / destination / place value"""
+    parts = v.split(",")
+    if len(parts) != 2: return "invalid", None
+    garbage = False
+    for p in parts:
+        m = _FLOAT.match(p)
+        if not m: return "invalid", None
+        if m.end() < len(p): garbage = True
+    if garbage: return "prefix", None
+    if all(re.fullmatch(r"-?\d+(\.\d+)?", p) for p in parts):
+        return "ok", (float(parts[0]), float(parts[1]))
+    try: val = (float(parts[0]), float(parts[1]))
+    except ValueError: val = None
+    return "lenient", val
+
+
+def scen_model(v, known, empty):
+    if v in known: return "ok"
+    if v in empty: return "empty"
+    if re.fullmatch(r"[0-9a-f]{8}-[0-9a-f]{4}-[0-9a-f]{4}-[0-9a-f]{4}-[0-9a-f]{12}", v): return "unknown"
+    v2 = v.strip("{}").replace("-", "")
+    if re.fullmatch(r"[0-9a-fA-F]{32}", v2): return "lenient"       # spellings boost::uuids::string_generator also reads
+    return "malformed"
+
+
+def analyse(endpoint, pairs, known, empty):
+    """defects of a request as the specification sees them.  Returns (must, may, info): must = defects that demand HTTP 400,
+    may = defects whose effect depends on the (unspecified) iteration order of duplicated keys or that the statement leaves
+    open; each defect = (class, set of documented codes that name it)."""
+    must, may = [], []
+    vals = collections.defaultdict(list)
+    for k, v in pairs:
+        vals[k].append(v)
+    info = dict(times=set(), time_type=1 if "1" in vals.get("time_type", []) else 0, coords={}, features=set())
+    coord_keys = [("place", "PLACE")] if endpoint == "accessibility" else [("origin", "ORIGIN"), ("destination", "DESTINATION")]
+    for key, up in coord_keys:
+        vs = vals.get(key, [])
+        if not vs:
+            must.append(("missing-" + key, {"MISSING_PARAM_" + up})); continue
+        info["coords"][key] = []
+        for v in vs:
+            c, val = coord_model(v)
+            if c == "invalid": must.append(("invalid-" + key, {"INVALID_" + up}))
+            elif c == "prefix": must.append(("prefix-" + key, {"INVALID_" + up}))
+            elif c == "lenient": may.append(("lenient-" + key, {"INVALID_" + up}))
+            if val is not None: info["coords"][key].append(val)
+            if c != "ok": info["features"].add(c + "-coordinate")
+    ts = vals.get("time_of_trip", [])
+    if not ts:
+        must.append(("missing-time", {"MISSING_PARAM_TIME_OF_TRIP"}))
+    else:
+        cls = [stoi_model(v) for v in ts]
+        neg = [c for c in cls if c[0] in ("ok", "lenient") and c[1] < 0]
+        good = [c for c in cls if c[0] in ("ok", "lenient") and c[1] >= 0]
+        for c, n in cls:
+            if c in ("nonnumeric", "range"): must.append(("nonnumeric-time", {"INVALID_NUMERICAL_DATA"}))
+            elif c == "prefix": must.append(("prefix-time", {"INVALID_NUMERICAL_DATA"}))
+            elif c == "lenient": may.append(("lenient-time", {"INVALID_NUMERICAL_DATA"}))
+            if c != "ok": info["features"].add(c + "-time")
+        if neg:
+            (must if not good else may).append(("negative-time", {"MISSING_PARAM_TIME_OF_TRIP", "INVALID_NUMERICAL_DATA"}))
+            info["features"].add("negative-time")
+        info["times"] = set(n for c, n in good)
+    for key in OPT_NUM_KEYS:
+        for v in vals.get(key, []):
+            c, n = stoi_model(v)
+            if c != "ok":
+                may.append((c + "-optional", {"INVALID_NUMERICAL_DATA"})); info["features"].add(c + "-optional")
+            elif n <= 0 or n >= 2 ** 31 - 1: info["features"].add("extreme-optional")
+    ss = vals.get("scenario_id", [])
+    if not ss:
+        must.append(("missing-scenario", {"MISSING_PARAM_SCENARIO"}))
+    else:
+        cls = [scen_model(v, known, empty) for v in ss]
+        for c in cls:
+            if c == "malformed": must.append(("malformed-scenario", {"MISSING_PARAM_SCENARIO"}))
+            if c != "ok": info["features"].add(c + "-scenario")
+        usable = [c for c in cls if c in ("ok", "empty", "lenient")]
+        if not usable and "malformed" not in cls:
+            must.append(("unknown-scenario", {"MISSING_PARAM_SCENARIO"}))
+        if "lenient" in cls: may.append(("lenient-scenario", {"MISSING_PARAM_SCENARIO"}))
+        if "unknown" in cls and usable: may.append(("unknown-scenario", {"MISSING_PARAM_SCENARIO"}))
+        if "empty" in cls:
+            (must if set(cls) <= {"empty", "unknown"} else may).append(("empty-scenario", {"EMPTY_SCENARIO"}))
+    for k, v in vals.items():
+        if len(v) > 1: info["features"].add("duplicate-key")
+        if k != k.lower(): info["features"].add("upper-case-key")
+        if "%" in k: info["features"].add("encoded-key")
+    return must, may, info
+
+
+PARAM_UNKNOWN_SIGNATURE = [("missing-place", "missing-place-code"), ("invalid-place", "invalid-place-code"),
+                           ("malformed-scenario", "malformed-scenario-id-code")]
+
+
+def classify_route_response(endpoint, url, st, hd, body, ready, known, empty, codes):
+    """all the clauses of C18 that can be decided without a model, for one response of /v2/route|summary|accessibility.
+    Returns (list of (signature, description), parsed json | None, features)"""
+    qcodes, qcodes_acc, dcodes = codes
+    doc = qcodes_acc if endpoint == "accessibility" else qcodes
+    fails = []
+    qs = url.split("?", 1)[1] if "?" in url else ""
+    pairs = server_parse_query(qs)
+    must, may, info = analyse(endpoint, pairs, known, empty)
+    if st not in (200, 400):
+        return [("bad-status-line", "status line %r is neither 200 nor 400" % hd.get("_status_line"))], None, info
+    cl = hd.get("content-length")
+    if cl is None or not cl.isdigit() or int(cl) != len(body):
+        fails.append(("content-length-mismatch", "Content-Length %s but %d body bytes follow the header" % (cl, len(body))))
+    try:
+        j = json.loads(body.decode("utf-8"))
+        if not isinstance(j, dict): raise ValueError("not an object")
+    except Exception as e:
+        return fails + [("body-not-json", "body does not parse as a JSON object (%s): %r" % (str(e)[:60], body[:120]))], None, info
+    status = j.get("status")
+    if st == 400:
+        code = j.get("errorCode")
+        if status != "query_error":
+            fails.append(("bad-400-body", "HTTP 400 with status %r" % status))
+        elif code not in doc:
+            fails.append(("undocumented-error-code", "errorCode %r is not in the documented enum of %s" % (code, endpoint)))
+        elif not must and not may:
+            fails.append(("spurious-400", "HTTP 400 %s for a request without any defect" % code))
+        elif code == "PARAM_ERROR_UNKNOWN":
+            classes = [c for c, _ in must + may]
+            sig = next((s for c, s in PARAM_UNKNOWN_SIGNATURE if c in classes), "param-error-unknown")
+            named = sorted(set(x for _, cs in must + may for x in cs))
+            fails.append((sig, "answered PARAM_ERROR_UNKNOWN although the request's defect (%s) has a documented specific code (%s)" % (", ".join(sorted(set(classes))), "/".join(named))))
+        elif not any(code in cs for _, cs in must + may):
+            fails.append(("wrong-error-code", "errorCode %s names a defect the request does not have (its defects: %s)" % (code, ", ".join(sorted(set(c for c, _ in must + may))))))
+        return fails, j, info
+    # ---- HTTP 200
+    if status not in ("success", "no_routing_found", "data_error"):
+        fails.append(("bad-200-status", "HTTP 200 with status %r" % status)); return fails, j, info
+    if status == "data_error":
+        if ready:
+            fails.append(("data-error-on-ready-data", "data_error %r on a server whose data is complete" % j.get("errorCode")))
+        elif j.get("errorCode") not in dcodes:
+            fails.append(("undocumented-error-code", "data_error code %r is not documented" % j.get("errorCode")))
+        return fails, j, info           # the fast path answers before parsing: no claim about the parameters
+    if must:
+        classes = sorted(set(c for c, _ in must))
+        if any(c.startswith("prefix-") for c in classes):
+            fails.append(("numeric-prefix-accepted", "HTTP 200 %s although a required parameter is malformed (%s): a numeric prefix was accepted and the rest ignored" % (status, ", ".join(classes))))
+        else:
+            fails.append(("defect-accepted", "HTTP 200 %s although the request has a defect that demands HTTP 400: %s" % (status, ", ".join(classes))))
+        return fails, j, info
+    q = j.get("query")
+    if not isinstance(q, dict):
+        fails.append(("echo-mismatch", "no `query` object in a %s answer" % status)); return fails, j, info
+    if info["times"] and q.get("timeOfTrip") not in info["times"]:
+        fails.append(("echo-mismatch", "query.timeOfTrip %r, request said %s" % (q.get("timeOfTrip"), sorted(info["times"]))))
+    if q.get("timeType") != info["time_type"]:
+        fails.append(("echo-mismatch", "query.timeType %r, request said %d" % (q.get("timeType"), info["time_type"])))
+    for key, vs in info["coords"].items():
+        e = q.get(key)
+        if vs and not (isinstance(e, list) and len(e) == 2 and any(
+                all((a == b) or (a != a and b is None) or (isinstance(b, (int, float)) and abs(a - b) <= 1e-9 * max(1.0, abs(a))) for a, b in zip(v, e)) for v in vs)):
+            if all(all(abs(x) < 1e300 and x == x for x in v) for v in vs):      # inf / nan do not survive JSON; no claim
+                fails.append(("echo-mismatch", "query.%s %r, request said %s" % (key, e, vs[:2])))
+    return fails, j, info
+
+
+def analyse_update(url):
+    """(names given (as the handler sees them), custom path, has_quote)"""
+    qs = url.split("?", 1)[1] if "?" in url else ""
+    names, path = [], ""
+    for k, v in server_parse_query(qs):
+        v1 = (k + "=" + v).split("=")[1]          # the handler re-splits "key=value" at every '='
+        if k in UPDATE_NAME_KEYS: names += v1.split(",")
+        elif k in UPDATE_PATH_KEYS: path = v1
+    return names, path
+
+
+def classify_update_response(url, st, hd, body):
+    names, path = analyse_update(url)
+    known = [n for n in names if n in UPDATE_KNOWN]
+    fails = []
+    if st != 200:
+        return [("bad-status-line", "status line %r for /updateCache" % hd.get("_status_line"))], None
+    cl = hd.get("content-length")
+    if cl is None or not cl.isdigit() or int(cl) != len(body):
+        fails.append(("content-length-mismatch", "Content-Length %s but %d body bytes" % (cl, len(body))))
+    try:
+        j = json.loads(body.decode("utf-8"))
+        if not isinstance(j, dict): raise ValueError("not an object")
+    except Exception as e:
+        quoted = any('"' in n or "\\" in n or any(ord(ch) < 32 for ch in n) for n in names + [path])
+        return fails + [("updatecache-unescaped-json" if quoted else "body-not-json",
+                         "body of /updateCache is not JSON%s: %r" % (" (a name / path containing a double quote, backslash or control character is pasted unescaped)" if quoted else "", body[:160]))], None
+    if known:
+        if j.get("status") != "success":
+            fails.append(("updatecache-wrong-object", "known cache name(s) %s given but the answer is %r" % (known, j)))
+        else:
+            listed = [x for x in str(j.get("cache_names", "")).split(",")]
+            if sorted(set(listed)) != sorted(set(known)):
+                fails.append(("updatecache-names-unknown-cache", "success object names %s, the caches actually refreshed are %s (an unknown name after a known one is reported as refreshed)" % (listed, known)))
+            if j.get("custom_cache_path") != path:
+                fails.append(("updatecache-wrong-object", "custom_cache_path %r, request said %r" % (j.get("custom_cache_path"), path)))
+    elif j.get("status") != "error":
+        fails.append(("updatecache-wrong-object", "no known cache name given but the answer is %r" % (j,)))
+    return fails, j
+
+
+# ---------------------------------------------------------------- datasets
+
+def c18_defaults_dataset():
+    """hand-made dataset on which every documented default and every 'non-positive = no limit' rule changes the answer.
+    94 stops in the 1-micro-degree column; groups A = {0,1}, C = {45..48}, B = {90,91} are 5 m apart, so that (with the
+    Euclidean geofilter, 5 km/h, truncation to whole metres / seconds) a query point ~12.4 m south of stop 0 reaches A in
+    8 s, C in 12 s, B in 15 s, and symmetrically from the north."""
+    ns = 94
+    foot = [(s, s, 0, 0) for s in range(ns)] + [(45, 46, 1200, 900), (47, 48, 1201, 901)]
+    lines = [(0, 0)] * 6
+    paths = [(0, [0, 90], [500]), (1, [0, 45], [200]), (2, [46, 90], [300]), (3, [1, 47], [200]), (4, [48, 91], [300]), (5, [1, 90], [700])]
+    T = lambda p, tid, a, b: (p, 0, tid, [a, b], [a, b], [1, 1], [1, 1])
+    trips = [T(0, 1, 40000, 40600), T(1, 2, 50000, 50300), T(2, 3, 52000, 52300), T(3, 4, 50000, 50300), T(4, 5, 52000, 52300),
+             T(5, 6, 86000, 86500), T(5, 7, 115000, 115190), T(5, 8, 1000, 1500)]
+    sc = lambda **kw: dict(dict(services=[0], onlyLines=[], exceptLines=[], onlyAgencies=[], exceptAgencies=[], onlyModes=[], exceptModes=[]), **kw)
+    scen = [sc(), sc(onlyLines=[0]), sc(onlyLines=[1, 2]), sc(onlyLines=[3, 4]), sc(services=[]), sc(onlyLines=[5])]
+    return dict(ns=ns, nag=1, nsv=1, foot=foot, lines=lines, paths=paths, trips=trips, scenarios=scen, acc=[], egr=[], cacheall=0, profile="c18-defaults")
+
+
+SOUTH_NEAR = "-73,44.999888"      # 112 micro-degrees south of stop 0
+NORTH_NEAR = "-73,45.000203"      # 112 micro-degrees north of stop 91
+
+
+def c18_generated_dataset(rng):
+    d = gen.gen_dataset(rng, rng.choice(["dense", "parallel", "hours", "sparse"]))
+    d["scenarios"].append(dict(services=[], onlyLines=[], exceptLines=[], onlyAgencies=[], exceptAgencies=[], onlyModes=[], exceptModes=[]))
+    d["cacheall"] = rng.choice([0, 1])
+    return d
+
+
+# ---------------------------------------------------------------- request generation
+
+TIME_ODD = ["0", "86399", "86400", "115199", "115200", "118799", "118800", "2147483647", "2147483646", "-1", "-2147483648", "12abc", "", "abc",
+            "%2012", "+5", "%2B5", "1e3", "12.5", "0x10", "2147483648", "-2147483649", "9" * 20, "9" * 400, "1" + "0" * 5000, "%31%32", "3000%00",
+            "--5", "5-", "%09%0A7", "0000000000000000000012"]
+OPT_ODD = ["0", "-1", "-2147483648", "1", "60", "180", "1200", "1800", "32767", "32768", "65535", "2147483647", "2147483648", "9" * 20, "abc", "",
+           "12abc", "1e3", "%2012", "+5", "%2B7"]
+
+
+def enc_value(rng, v, p=0.15):
+    """percent-encode a random subset of the characters of a DECODED value (and everything a request line cannot carry)"""
+    out = []
+    for ch in v:
+        o = ord(ch)
+        if o <= 32 or o >= 127 or ch in "%&#+=?\"<>\\^`{|}" or rng.random() < p:
+            out.append("%%%02X" % o if rng.random() < 0.5 else "%%%02x" % o)
+        else:
+            out.append(ch)
+    return "".join(out)
+
+
+class Ctx:
+    """what a request generator needs to know about one ready dataset"""
+    def __init__(self, d, label):
+        self.d, self.label = d, label
+        self.known = [H.uuid(6, i) for i, s in enumerate(d["scenarios"]) if s["services"]]
+        self.empty = [H.uuid(6, i) for i, s in enumerate(d["scenarios"]) if not s["services"]]
+        ts = sorted(set(x for t in d["trips"] for x in t[4]))
+        self.times = [str(x) for x in ts[:: max(1, len(ts) // 6)]] + [str(max(0, ts[0] - 300)), str(ts[-1] + 300)]
+
+    def base(self, endpoint, rng=None):
+        r = rng or random
+        ps = []
+        if endpoint == "accessibility":
+            ps.append(("place", r.choice([H.ACCESS_POINT, H.EGRESS_POINT])))
+        else:
+            ps += [("origin", H.ACCESS_POINT), ("destination", H.EGRESS_POINT)]
+        ps += [("scenario_id", r.choice(self.known)), ("time_of_trip", r.choice(self.times))]
+        return ps
+
+
+def url_of(endpoint, pairs_encoded):
+    return "/v2/%s?%s" % (endpoint, "&".join(k if v is None else "%s=%s" % (k, v) for k, v in pairs_encoded))
+
+
+def c18_catalogue(ctx):
+    """systematic single-feature requests (already-encoded values); every endpoint"""
+    urls = []
+    K, E, U = ctx.known[0], (ctx.empty[0] if ctx.empty else None), H.uuid(6, 999)
+    for ep in ("route", "summary", "accessibility"):
+        base = ctx.base(ep, random.Random(1))
+        def var(**chg):
+            """chg: key -> None (drop) | value | [values] (duplicates) ; extra keys are appended"""
+            out = []
+            for k, v in base:
+                if k in chg:
+                    c = chg[k]
+                    if c is None: continue
+                    for x in (c if isinstance(c, list) else [c]): out.append((k, x))
+                else:
+                    out.append((k, v))
+            for k, c in chg.items():
+                if k not in dict(base) and c is not None:
+                    for x in (c if isinstance(c, list) else [c]): out.append((k, x))
+            urls.append(url_of(ep, out))
+        var()
+        for t in TIME_ODD: var(time_of_trip=t)
+        for t in ("0", "86400", "115199", "115200", "118800", "2147483647"):
+            var(time_of_trip=t, time_type="1"); var(time_of_trip=t, time_type="1", alternatives="1"); var(time_of_trip=t, alternatives="true")
+        var(time_of_trip=None); var(time_of_trip=["500", "99999"]); var(time_of_trip=["500", "abc"]); var(time_of_trip=["-1", "500"])
+        urls.append(url_of(ep, [(k.upper() if k == "time_of_trip" else k, v) for k, v in base]))
+        urls.append(url_of(ep, [(k.upper(), v) for k, v in base]))
+        urls.append(url_of(ep, [("time%5Fof%5Ftrip" if k == "time_of_trip" else k, v) for k, v in base]))
+        urls.append(url_of(ep, [(k, None) if k == "time_of_trip" else (k, v) for k, v in base]))        # key without '='
+        for ck in (["place"] if ep == "accessibility" else ["origin", "destination"]):
+            good = dict(base)[ck]
+            for v in (None, "1", "1,2,3", "abc,def", "", ",", ",45", "-73,", "-73.000001x,45.000005", "-73.000001,45.000005abc", "%20-73.000001,45.000005",
+                      "-73.000001%2C45.000005", "-7.3000001e1,45.000005", "+73,45", "1e999,45", "nan,45", "inf,inf", "-73;45", "-73.000001,45.000005,", "0x1p3,45",
+                      "-73.000001%2045.000005", "181,91", "-73.000001,45.000005%00"):
+                var(**{ck: v})
+            var(**{ck: [good, good]}); var(**{ck: [good, "abc"]})
+            urls.append(url_of(ep, [(k.capitalize() if k == ck else k, v) for k, v in base]))
+        for v in (None, U, "abc", "", "1234", K.upper(), "%7B" + K + "%7D", K.replace("-", ""), K + "x", K[:-1], "x" + K, K.replace("-", "%2D"), "g" * 36,
+                  "00000000-0000-0000-0000-000000000000", "%00", K + "%00"):
+            var(scenario_id=v)
+        if E: var(scenario_id=E)
+        if len(ctx.known) > 1: var(scenario_id=[ctx.known[0], ctx.known[1]])
+        for key in OPT_NUM_KEYS:
+            for v in OPT_ODD: var(**{key: v})
+            var(**{key: ["0", "100"]})
+        for v in ("0", "1", "2", "abc", "", "-1", "01", "%31"): var(time_type=v)
+        var(time_type=["0", "1"])
+        if ep != "accessibility":
+            for v in ("1", "true", "0", "false", "TRUE", "yes", ""): var(alternatives=v)
+        var(foo="bar"); var(**{"": "x"}); var(origin_=None)
+        urls += ["/v2/%s" % ep, "/v2/%s?" % ep, "/v2/%s/?%s" % (ep, url_of(ep, base).split("?")[1]), "/v2/%s?&&&" % ep, "/v2/%s?=&=&" % ep,
+                 "/v2/%s?%s" % (ep, "&".join("k%d=v" % i for i in range(300))), url_of(ep, base) + "&" + "x" * 20000]
+    return urls
+
+
+def c18_random(ctx, rng):
+    ep = rng.choice(["route", "route", "summary", "accessibility"])
+    ps = []
+    K = ctx.known
+    def coord():
+        r = rng.random()
+        if r < 0.8: return rng.choice([H.ACCESS_POINT, H.EGRESS_POINT, "-73,45", "-73.0001,45.0001", "-73,45.5", "0,0", "-73.000000,45.000003"])
+        return rng.choice(["1", "1,2,3", "abc", "", "-73x,45", "-73,45y", " -73,45", "+73,45", "1e2,4e1", "nan,nan", ",", "-73,45,", "--73,45"])
+    for key in (["place"] if ep == "accessibility" else ["origin", "destination"]):
+        if rng.random() < 0.93:
+            ps.append((key, coord()))
+            if rng.random() < 0.05: ps.append((key, coord()))
+    if rng.random() < 0.93:
+        r = rng.random()
+        ps.append(("scenario_id", rng.choice(K) if r < 0.85 else rng.choice([H.uuid(6, 999), "abc", "", rng.choice(K).upper(), rng.choice(K)[:-2]] + ctx.empty)))
+        if rng.random() < 0.04: ps.append(("scenario_id", rng.choice(K)))
+    if rng.random() < 0.93:
+        r = rng.random()
+        tv = rng.choice(ctx.times) if r < 0.6 else str(rng.choice([0, 1, 3599, 3600, 86399, 86400, 115199, 115200, 118799, 118800, 2147483647, rng.randrange(0, 120000)])) if r < 0.85 else pct_decode(rng.choice(TIME_ODD))
+        ps.append(("time_of_trip", tv))
+        if rng.random() < 0.05: ps.append(("time_of_trip", rng.choice(ctx.times + ["abc", "-1", "7x"])))
+    if rng.random() < 0.6: ps.append(("time_type", rng.choice(["0", "1", "1", "2", ""])))
+    for key in OPT_NUM_KEYS:
+        if rng.random() < 0.3:
+            ps.append((key, pct_decode(rng.choice(OPT_ODD)) if rng.random() < 0.7 else str(rng.randrange(-5, 4000))))
+            if rng.random() < 0.05: ps.append((key, str(rng.randrange(0, 500))))
+    if ep != "accessibility" and rng.random() < 0.3: ps.append(("alternatives", rng.choice(["1", "true", "0", "false", "x"])))
+    if rng.random() < 0.1: ps.append((rng.choice(["foo", "Origin", "PLACE", "time-of-trip", "scenario", "max_travel_time_"]), rng.choice(["1", "", "-73,45"])))
+    rng.shuffle(ps)
+    enc = []
+    for k, v in ps:
+        if rng.random() < 0.03: k = k.upper()
+        enc.append((k, enc_value(rng, v, p=rng.choice([0, 0, 0.1, 1.0]))))
+    return url_of(ep, enc)
+
+
+UPDATE_CATALOGUE = [
+    "/updateCache", "/updateCache?", "/updateCache?foo=bar", "/updateCache/", "/updateCache?path=x",
+    "/updateCache?names=agencies", "/updateCache?names=all", "/updateCache?names=nodes,lines", "/updateCache?name=services", "/updateCache?caches=paths,scenarios,schedules",
+    "/updateCache?cache_names=data_sources,persons,od_trips", "/updateCache?cache=agencies&cache_name=services", "/updateCache/?names=nodes",
+    "/updateCache?names=agencies%2Cservices", "/updateCache?names=schedules&path=", "/updateCache?NAMES=agencies",
+    "/updateCache?names=foo", "/updateCache?names=", "/updateCache?names=,", "/updateCache?names=foo,bar", "/updateCache?names=Agencies", "/updateCache?names=%20agencies",
+    "/updateCache?name=foo&path=x", "/updateCache?names",
+    "/updateCache?names=foo,agencies", "/updateCache?names=agencies,foo", "/updateCache?names=agencies,,services", "/updateCache?names=agencies,", "/updateCache?names=,agencies",
+    "/updateCache?names=agencies&names=foo", "/updateCache?names=all,foo",
+    "/updateCache?names=agencies&path=a%22b", "/updateCache?names=agencies,%22x", "/updateCache?names=agencies&path=a%5Cb", "/updateCache?names=agencies&path=a%0Ab",
+    "/updateCache?names=agencies&custom_path=%7B%22x%22%3A1%7D", "/updateCache?names=agencies=x", "/updateCache?names=agencies&path=nonexistent-directory",
+    "/updateCache?names=agencies&path=" + "p" * 3000,
+]
+
+
+# ---------------------------------------------------------------- running request lists against a (restartable) server
+
+class Group:
+    """one server configuration + its request list; restarts the server when a request kills or wedges it"""
+    def __init__(self, name, cache_dir, server_exe, ready, threads=2, cache_all=False, recipe=""):
+        self.name, self.cache_dir, self.exe, self.ready, self.threads, self.cache_all = name, cache_dir, server_exe, ready, threads, cache_all
+        self.recipe = recipe            # replay header: how to rebuild this server
+        self.srv = None
+        self.restarts = 0
+        self.records = []               # dict(url, st, hd, body, died, san)
+        self.final_san = ""
+
+    def start(self):
+        self.srv = H.start_server(self.cache_dir, threads=self.threads, cache_all=self.cache_all, euclid=True, exe=self.exe, tag=self.name)
+        if self.srv is None or not self.srv.alive() or getattr(self.srv, "ready_s", None) is None:
+            raise RuntimeError("server of group %s did not start: %s" % (self.name, self.srv.output()[-400:] if self.srv else ""))
+
+    def stop(self):
+        if self.srv is not None:
+            died = not self.srv.alive()
+            rc, san = self.srv.stop()
+            self.srv = None
+            return rc, san, died
+        return None, "", False
+
+    def send(self, url, timeout=6.0):
+        if self.srv is None:
+            self.start()
+        st, hd, body, raw = self.srv.get(url, timeout=timeout)
+        rec = dict(url=url, st=st, hd=hd, body=body, died=False, san="", hang=False)
+        if st is None:
+            # no response: did the process die (give the sanitizer time to finish its report)?  or is it wedged?
+            t0 = time.time()
+            while self.srv.alive() and time.time() - t0 < (3.0 if hd.get("_error") != "timeout" else 0.2):
+                time.sleep(0.05)
+                if hd.get("_error") == "closed" and time.time() - t0 > 0.6 and H.http_get(self.srv.port, "/verif-probe", timeout=1.0)[0] == 200:
+                    break                 # connection was closed without a response, the server lives on
+            if not self.srv.alive():
+                rc, san, _ = self.stop()
+                rec.update(died=True, san=san or "exit code %s, no sanitizer text" % rc, rc=rc)
+                self.restarts += 1
+            elif hd.get("_error") == "timeout":
+                # confirm on a fresh server with a longer time-out before calling it a hang
+                self.stop(); self.restarts += 1; self.start()
+                st2, hd2, body2, _ = self.srv.get(url, timeout=20.0)
+                if st2 is None and hd2.get("_error") == "timeout":
+                    rec["hang"] = True
+                    self.stop(); self.restarts += 1
+                else:
+                    rec.update(st=st2, hd=hd2, body=body2); rec["slow_first_try"] = True
+        self.records.append(rec)
+        return rec
+
+    def run(self, urls, max_restarts=40):
+        try:
+            for u in urls:
+                if self.restarts > max_restarts:
+                    self.records.append(dict(url=u, skipped=True)); continue
+                self.send(u)
+        finally:
+            rc, san, died = self.stop()
+            self.final_san = san if (san and rc not in (None,)) else ""
+        return self
+
+
+def replay_text_c18(group, urls, note=""):
+    head = "# C18 replay: %s\nserver %s\n" % (note, group.recipe.split("\n", 1)[0])
+    rest = group.recipe.split("\n", 1)[1] if "\n" in group.recipe else ""
+    return head + rest + "".join("GET %s\n" % u for u in urls)
+
+
+def _short(url, n=160):
+    return url if len(url) <= n else url[:n - 20] + "...(%d chars)" % len(url)
+
+
+def run_c18(tier, seed, replay=None, theorems=None, module=None):
+    ths = theorems or []
+    rep = core.Report("C18", tier, seed, level="proof" if ths else "exploration")
+    rep.rule = C18_RULE
+    rep.assumptions = [
+        "transport (one response per request, Content-Length) is Simple-Web-Server's: observed on every request, not modelled",
+        "a request carrying several defects, or a duplicated key, may be answered with the code of ANY of its defects / with ANY of the duplicated values "
+        "(the server iterates an unordered multimap); membership is checked",
+        "forms std::stoi / std::stod consume completely although they are not plain numbers (leading white space, '+', exponents) are accepted either way",
+        "on not-ready data the data_error fast path answers before the parameters are parsed: HTTP 200 data_error is accepted for every request there",
+        "requests after a successful /updateCache are not routed in this check (that history is property C15)",
+    ]
+    stats = collections.Counter()
+    seen = set()
+
+    def fail(sig, desc, group, urls, key=None):
+        stats["sig " + sig] += 1
+        k = (sig, key if key is not None else desc[:80])
+        if k in seen: return
+        seen.add(k)
+        rep.direct.append((sig, desc, replay_text_c18(group, urls, sig)))
+
+    try:
+        core.lean_phase(rep, module if ths else None, ths, thorough=(tier == "thorough"))
+        server = core.harness_phase(rep, "server", "asan")
+        cachegen = core.harness_phase(rep, "cachegen", "plain")
+        try:
+            codes = documented_codes()
+            rep.obligation("docs:error-code-enums", True, "route %d, accessibility %d, data_error %d codes" % tuple(len(c) for c in codes))
+        except Exception as e:
+            rep.obligation("docs:error-code-enums", False, str(e)); codes = None
+        if not server or not cachegen or not codes:
+            return rep.finish()
+        wd = H.workdir("c18")
+        if replay:
+            return _c18_replay(rep, replay, server, cachegen, codes, wd)
+        # ---------------- datasets and servers
+        ddef = c18_defaults_dataset()
+        rng0 = random.Random(seed * 1000003 + 0)
+        ngen = 3 if tier != "thorough" else 8
+        gens = [c18_generated_dataset(random.Random(seed * 1000003 + 1 + i)) for i in range(ngen)]
+        groups, plans = [], []
+        def mk(name, d, ready=True, strip=None, threads=2):
+            cdir = os.path.join(wd, name)
+            if d is None:
+                os.makedirs(cdir, exist_ok=True); recipe = "empty\n"
+            else:
+                H.make_cache(d, cdir, did=name, cachegen=cachegen)
+                recipe = ("noschedules\n" if strip else "ready\n") + gen.write_dataset(d, name, [])
+                if strip:
+                    shutil.rmtree(os.path.join(cdir, "lines"))
+            g = Group(name, cdir, server, ready, threads=threads, cache_all=bool(d and d.get("cacheall")), recipe=recipe)
+            groups.append(g); return g
+        gdef = mk("defaults", ddef)
+        cdef = Ctx(ddef, "defaults")
+        nrand = C18_N["thorough" if tier == "thorough" else "quick"]
+        # catalogue on the crafted dataset and on the first generated one; random strings spread over all ready datasets
+        plans.append((gdef, c18_catalogue(cdef) + [c18_random(cdef, random.Random(seed * 1000003 + 100 + k)) for k in range(nrand // (ngen + 1))]))
+        ctxs = []
+        for i, d in enumerate(gens):
+            g = mk("gen%d" % i, d, threads=rng0.choice([1, 2, 4])); c = Ctx(d, g.name); ctxs.append(c)
+            urls = (c18_catalogue(c) if i == 0 else []) + [c18_random(c, random.Random(seed * 1000003 + 100000 * (i + 1) + k)) for k in range(nrand // (ngen + 1))]
+            plans.append((g, urls))
+        cat_small = c18_catalogue(cdef)
+        gempty = mk("empty", None, ready=False)
+        plans.append((gempty, cat_small[::3] + [c18_random(cdef, random.Random(seed * 1000003 + 900000 + k)) for k in range(nrand // 12)]))
+        gnos = mk("noschedules", ddef, ready=False, strip=True)
+        plans.append((gnos, cat_small[1::3] + [c18_random(cdef, random.Random(seed * 1000003 + 950000 + k)) for k in range(nrand // 12)]))
+        gupd = mk("update", gens[0])
+        urng = random.Random(seed * 1000003 + 7)
+        upd_urls = list(UPDATE_CATALOGUE)
+        pool = sorted(UPDATE_KNOWN) + ["foo", "", "Agencies", "all ", "x" * 50, "%22", "a%22b", "schedules%00"]
+        for _ in range(30 if tier != "thorough" else 300):
+            ns_ = [urng.choice(pool) for _ in range(urng.randint(0, 4))]
+            u = "/updateCache?%s=%s" % (urng.choice(UPDATE_NAME_KEYS), ",".join(ns_))
+            if urng.random() < 0.3: u += "&%s=%s" % (urng.choice(UPDATE_PATH_KEYS), urng.choice(["", "x", "a%22b", "..", "%2Ftmp"]))
+            upd_urls.append(u)
+        plans.append((gupd, upd_urls))
+        gpair = mk("pairs", ddef)            # defaults / no-limit comparisons run on their own server
+        # ---------------- run
+        t0 = time.time()
+        with ThreadPoolExecutor(max_workers=PAR) as ex:
+            futs = [ex.submit(g.run, urls) for g, urls in plans]
+            fpair = ex.submit(_c18_pairs, gpair, stats)
+            for f in futs: f.result()
+            pair_fails = fpair.result()
+        t_run = time.time() - t0
+        # ---------------- evaluate
+        for g, urls in plans:
+            is_upd = g is gupd
+            ctx = cdef if g in (gdef, gempty, gnos) else (ctxs[groups.index(g) - 1] if g.name.startswith("gen") else cdef)
+            for rec in g.records:
+                if rec.get("skipped"):
+                    stats["skipped after too many restarts"] += 1; continue
+                url = rec["url"]
+                rep.evaluations += 1
+                stats["requests %s" % g.name] += 1
+                ep = "updateCache" if is_upd else url.split("?")[0].strip("/").split("/")[-1]
+                if rec["hang"]:
+                    fail("request-hang", "no response within 6 s and again none within 20 s on a fresh server: %s" % _short(url), g, [url], key=ep); continue
+                if rec["st"] is None:
+                    names = analyse_update(url)[0] if is_upd else None
+                    how = ("the process died: " + rec["san"][:500]) if rec["died"] else ("connection %s without a response, process alive" % rec["hd"].get("_error"))
+                    if is_upd and names and not any(n in UPDATE_KNOWN for n in names):
+                        fail("updatecache-unknown-name-unanswered", "GET %s (no known cache name) got no HTTP response at all; %s" % (_short(url), how), g, [url],
+                             key="died" if rec["died"] else "closed")
+                    elif rec["died"]:
+                        fail("server-crash", "GET %s killed the server: %s" % (_short(url), how), g, [url], key=ep + rec["san"][:60])
+                    else:
+                        fail("no-response", "GET %s: %s" % (_short(url), how), g, [url], key=ep)
+                    continue
+                if rec.get("slow_first_try"): stats["slow first try (answered on retry)"] += 1
+                if is_upd:
+                    fails, j = classify_update_response(url, rec["st"], rec["hd"], rec["body"])
+                    stats["updateCache %s" % (j.get("status") if j else "unparsable")] += 1
+                    feats = {"update"}
+                else:
+                    fails, j, info = classify_route_response(ep, url, rec["st"], rec["hd"], rec["body"], g.ready, set(ctx.known), set(ctx.empty), codes)
+                    feats = info["features"]
+                    stats["%s %s %s" % (ep, rec["st"], (j.get("errorCode") or j.get("status")) if j else "unparsable")] += 1
+                for sig, desc in fails:
+                    fail(sig, "%s  [GET %s on %s data]" % (desc, _short(url), "ready" if g.ready else "not-ready (" + g.name + ")"), g, [url],
+                         key=(ep, desc[:60]))
+                if not fails and (feats or rec["st"] == 400):
+                    rep.nontrivial.add(hash(url))
+                if len(rep.samples) < 4 and rec["st"] == 400 and not fails:
+                    rep.samples.append(dict(request=_short(url), server=g.name, status=rec["st"], body=rec["body"].decode("utf-8", "replace")[:200]))
+            if g.final_san:
+                fail("sanitizer", "sanitizer / abort output of server %s not attributed to a request: %s" % (g.name, g.final_san[:500]), g, [r["url"] for r in g.records[-3:] if "url" in r], key=g.name)
+            stats["server restarts"] += g.restarts
+        for sig, desc, urls in pair_fails:
+            fail(sig, desc, gpair, urls)
+        if gpair.final_san:
+            fail("sanitizer", "sanitizer output of the defaults server: " + gpair.final_san[:500], gpair, [])
+        rep.evaluations += stats["pair comparisons"]
+        rep.cov["input_distribution"] = dict(stats)
+        rep.cov["timing"] = dict(run_s=round(t_run, 1), servers=len(groups) , in_parallel=PAR)
+        return rep.finish()
+    finally:
+        H.cleanup()
+
+
+def _c18_pairs(g, stats):
+    """defaults and 'non-positive = no limit': bodies of request pairs must be identical.  Returns [(signature, description, urls)]"""
+    out = []
+    S = lambda i: H.uuid(6, i)
+
+    def get(params):
+        url = "/v2/route?" + "&".join("%s=%s" % kv for kv in params.items())
+        rec = g.send(url)
+        try: j = json.loads(rec["body"].decode()) if rec["st"] == 200 else None
+        except Exception: j = None
+        return url, rec, j
+
+    def first_route(j):
+        try: return j["result"]["routes"][0]
+        except Exception: return None
+
+    def same(a, b):
+        return a[1]["st"] == b[1]["st"] and a[1]["body"] == b[1]["body"]
+
+    def expect_equal(sig, what, a, b):
+        stats["pair comparisons"] += 1
+        if not same(a, b):
+            out.append((sig, "%s: the two requests must be answered identically but are not: %s -> %s %r  |  %s -> %s %r" % (
+                what, a[0], a[1]["st"], " ".join(a[1]["body"].decode("utf-8", "replace").split())[-150:], b[0], b[1]["st"], " ".join(b[1]["body"].decode("utf-8", "replace").split())[-150:]), [a[0], b[0]]))
+
+    def discriminates(what, a, c):
+        stats["pair controls"] += 1
+        if same(a, c): stats["pair control does NOT discriminate: " + what] += 1
+        else: stats["pair controls discriminating"] += 1
+
+    try:
+        g.start()
+        base = dict(origin=SOUTH_NEAR, destination=NORTH_NEAR, scenario_id=S(1), time_of_trip=39000)
+        # access / egress seconds as the server computes them for the near points
+        _, _, j0 = get(dict(base, min_waiting_time=0))
+        r0 = first_route(j0)
+        if not r0:
+            stats["pairs: calibration failed"] += 1
+            return out
+        a, e = r0["accessTravelTime"], r0["egressTravelTime"]
+        stats["pairs: near access %ds egress %ds" % (a, e)] += 1
+        # ---- min_waiting_time default 180 (readyToBoardAt = arrival at the stop + minimum waiting time is part of every route)
+        om = get(dict(base)); ex = get(dict(base, min_waiting_time=180)); c1 = get(dict(base, min_waiting_time=179)); c2 = get(dict(base, min_waiting_time=181))
+        expect_equal("default-min_waiting_time", "omitted min_waiting_time vs 180", om, ex); discriminates("min_waiting_time 179", om, c1); discriminates("min_waiting_time 181", om, c2)
+        tight = dict(base, time_of_trip=40000 - a - 180)         # the only trip leaves exactly when the default waiting time is over
+        om = get(tight); ex = get(dict(tight, min_waiting_time=180)); c2 = get(dict(tight, min_waiting_time=181))
+        expect_equal("default-min_waiting_time", "omitted min_waiting_time vs 180 (trip leaves exactly 180 s after reaching the stop)", om, ex); discriminates("min_waiting_time 181 tight", om, c2)
+        for neg in ("-1", "-2147483648"):
+            expect_equal("negative-min_waiting_time", "negative min_waiting_time vs 0", get(dict(base, min_waiting_time=neg)), get(dict(base, min_waiting_time=0)))
+        # ---- max_first_waiting_time default 1800
+        for w, label in ((1800, "waits exactly 1800 s"), (1801, "would wait 1801 s")):
+            q = dict(base, time_of_trip=40000 - a - w)
+            om = get(q); ex = get(dict(q, max_first_waiting_time=1800)); c = get(dict(q, max_first_waiting_time=1801 if w == 1801 else 1799))
+            expect_equal("default-max_first_waiting_time", "omitted max_first_waiting_time vs 1800 (%s)" % label, om, ex); discriminates("max_first_waiting_time w=%d" % w, om, c)
+        q = dict(base, time_of_trip=40000 - a - 5000)
+        hu = get(dict(q, max_first_waiting_time=INT_MAX))
+        for v in ("0", "-1", "-2147483648"):
+            expect_equal("nonpositive-limit-max_first_waiting_time", "max_first_waiting_time=%s vs %d" % (v, INT_MAX), get(dict(q, max_first_waiting_time=v)), hu)
+        discriminates("max_first_waiting_time no-limit", hu, get(q))
+        # ---- max_travel_time: no default limit; non-positive = no limit
+        hu = get(dict(base, max_travel_time=INT_MAX)); om = get(base)
+        expect_equal("default-max_travel_time", "omitted max_travel_time vs %d" % INT_MAX, om, hu)
+        for v in ("0", "-1", "-2147483648"):
+            expect_equal("nonpositive-limit-max_travel_time", "max_travel_time=%s vs %d" % (v, INT_MAX), get(dict(base, max_travel_time=v)), hu)
+        discriminates("max_travel_time 60", hu, get(dict(base, max_travel_time=60)))
+        # ---- max_transfer_travel_time default 1200: scenario 2 needs the 1200 s footpath 45->46, scenario 3 the 1201 s footpath 47->48
+        tb = dict(origin=SOUTH_NEAR, destination=NORTH_NEAR, time_of_trip=49000, max_access_travel_time=a + 2, max_egress_travel_time=e + 2)
+        q2, q3 = dict(tb, scenario_id=S(2)), dict(tb, scenario_id=S(3))
+        om2 = get(q2); expect_equal("default-max_transfer_travel_time", "omitted max_transfer_travel_time vs 1200 (journey needs a 1200 s transfer)", om2, get(dict(q2, max_transfer_travel_time=1200)))
+        discriminates("max_transfer_travel_time 1199", om2, get(dict(q2, max_transfer_travel_time=1199)))
+        r2 = first_route(om2[2])
+        if not (r2 and r2.get("numberOfBoardings") == 2 and r2.get("transferWalkingTime") == 1200): stats["pairs: transfer scenario did not produce the intended 2-leg route"] += 1
+        om3 = get(q3); expect_equal("default-max_transfer_travel_time", "omitted max_transfer_travel_time vs 1200 (journey needs a 1201 s transfer)", om3, get(dict(q3, max_transfer_travel_time=1200)))
+        hu3 = get(dict(q3, max_transfer_travel_time=INT_MAX)); discriminates("max_transfer_travel_time 1201", om3, hu3)
+        for v in ("0", "-1", "-2147483648"):
+            expect_equal("nonpositive-limit-max_transfer_travel_time", "max_transfer_travel_time=%s vs %d" % (v, INT_MAX), get(dict(q3, max_transfer_travel_time=v)), hu3)
+        # ---- max_access / max_egress default 1200: query points far away, found by probing the reported walking time
+        def far_point(side, target):
+            """latitude (south of stop 0 for the origin, north of stop 91 for the destination) whose walk to the nearest stop takes `target` s"""
+            off = (target + 0.5) * (5 / 3.6) / 111131.745
+            for _ in range(25):
+                lat = (45.0 - off) if side == "origin" else (45.000091 + off)
+                q = dict(base, time_of_trip=20000, max_first_waiting_time=0, **{("max_access_travel_time" if side == "origin" else "max_egress_travel_time"): INT_MAX})
+                q[side] = "-73,%.7f" % lat
+                _, _, j = get(q)
+                r = first_route(j)
+                if not r: return None
+                got = r["accessTravelTime" if side == "origin" else "egressTravelTime"]
+                if got == target: return "-73,%.7f" % lat
+                off += (target - got) * (5 / 3.6) / 111131.745 * (1.0 if abs(target - got) > 1 else 0.45)
+            return None
+        for side, key in (("origin", "max_access_travel_time"), ("destination", "max_egress_travel_time")):
+            p1200, p1201, p3000 = far_point(side, 1200), far_point(side, 1201), far_point(side, 3000)
+            if not (p1200 and p1201 and p3000):
+                stats["pairs: no far %s point found" % side] += 1; continue
+            qb = dict(base, time_of_trip=20000, max_first_waiting_time=0)
+            for p, label, ctl in ((p1200, "walk of exactly 1200 s", 1199), (p1201, "walk of 1201 s", 1201)):
+                q = dict(qb); q[side] = p
+                om = get(q); expect_equal("default-" + key, "omitted %s vs 1200 (%s)" % (key, label), om, get(dict(q, **{key: 1200})))
+                discriminates("%s %d" % (key, ctl), om, get(dict(q, **{key: ctl})))
+            q = dict(qb); q[side] = p3000
+            hu = get(dict(q, **{key: INT_MAX}))
+            for v in ("0", "-1", "-2147483648"):
+                expect_equal("nonpositive-limit-" + key, "%s=%s vs %d (walk of 3000 s)" % (key, v, INT_MAX), get(dict(q, **{key: v})), hu)
+            discriminates(key + " no-limit", hu, get(q))
+        # ---- time_type default 0, alternatives default false
+        expect_equal("default-time_type", "omitted time_type vs 0", get(base), get(dict(base, time_type=0)))
+        discriminates("time_type 1", get(base), get(dict(base, time_type=1)))
+        expect_equal("default-alternatives", "omitted alternatives vs false", get(base), get(dict(base, alternatives="false")))
+    finally:
+        rc, san, died = g.stop()
+        g.final_san = san
+    return out
+
+
+def _c18_replay(rep, path, server, cachegen, codes, wd):
+    """replay file: `server ready|empty|noschedules`, optionally one dataset block, then `GET <path>` lines"""
+    text = open(path).read()
+    mode, block, urls, inblock = "ready", [], [], False
+    for line in text.splitlines(True):
+        if line.startswith("#"): continue
+        if line.startswith("server "): mode = line.split()[1]
+        elif line.startswith("GET "): urls.append(line[4:].rstrip("\r\n"))
+        elif line.strip():
+            block.append(line)
+    d = None
+    if block:
+        did, d, _, _ = gen.parse_protocol("".join(block))
+    cdir = os.path.join(wd, "replay")
+    if mode == "empty" or d is None:
+        os.makedirs(cdir, exist_ok=True); ready = False
+    else:
+        H.make_cache(d, cdir, cachegen=cachegen); ready = mode == "ready"
+        if mode == "noschedules": shutil.rmtree(os.path.join(cdir, "lines"))
+    ctx = Ctx(d, "replay") if d else Ctx(c18_defaults_dataset(), "replay")
+    g = Group("replay", cdir, server, ready, recipe=mode + "\n" + ("".join(block)))
+    try:
+        prev = None
+        for u in urls:
+            rec = g.send(u)
+            rep.evaluations += 1
+            ep = u.split("?")[0].strip("/").split("/")[-1]
+            print("GET %s\n  -> %s %s %r" % (_short(u, 300), rec["st"], rec["hd"].get("_error") or "", " ".join(rec["body"].decode("utf-8", "replace").split())[:300]))
+            if rec["st"] is None:
+                print("  no response; process %s %s" % ("DIED" if rec["died"] else "alive", rec["san"][:600]))
+                rep.direct.append(("no-response" if not rec["died"] else "server-crash", "replayed request got no response: " + _short(u), replay_text_c18(g, [u])))
+            else:
+                if ep == "updateCache": fails, j = classify_update_response(u, rec["st"], rec["hd"], rec["body"])
+                else: fails, j, _ = classify_route_response(ep, u, rec["st"], rec["hd"], rec["body"], ready, set(ctx.known), set(ctx.empty), codes)
+                for sig, desc in fails:
+                    print("  VIOLATED [%s] %s" % (sig, desc))
+                    rep.direct.append((sig, desc, replay_text_c18(g, [u])))
+            if prev is not None and len(urls) == 2:
+                eq = prev["st"] == rec["st"] and prev["body"] == rec["body"]
+                print("  the two responses are %s" % ("identical" if eq else "DIFFERENT"))
+                if not eq:
+                    rep.direct.append(("pair-differs", "the two replayed requests are answered differently", replay_text_c18(g, urls)))
+            prev = rec
+    finally:
+        g.stop()
+    return rep.finish()
